@@ -129,7 +129,7 @@ func soundFor(line string, key ssh.PublicKey) (declared, exact bool) {
 func TestC38(t *testing.T) {
 	m := mon.New(t, "C38")
 	defer m.Done()
-	m.Rule("pool per process = Go-made public keys (ed25519, ecdsa 256/384/521 from seeded scalars, RSA moduli of 1024..16384 bits with e in {3,5,17,257,65537,2^24-1}, DSA-shaped numbers), hand-built sk-ecdsa/sk-ed25519 blobs, ssh-keygen-made keys (ed25519, ecdsa 256/384/521, rsa 1024/2048/3072[/4096], dsa) and certificates over them issued by ssh.Certificate.SignCert and by ssh-keygen -s (user/host, options, 3 CA types). key case = one pool key through ParsePublicKey/Marshal/MarshalAuthorizedKey/ParseAuthorizedKey/Fingerprint*, compared with an independent encoder/decoder (h/ref/sshkeyfmt), ssh-keygen -l (-E sha256|md5) reading the package's output, and ssh-keygen -e -m PKCS8 (numbers via OpenSSL's DER). file case = authorized_keys file of 1..10 generated lines (plain / options with quotes, escaped quotes, commas, blanks, '=' / type mismatch / blank, comment, one token / unterminated quote / bad or truncated base64 / unknown type / single-edit mutants and oddities), outcome known by construction and cross-checked with the sshd(8) reference grammar (h/ref/authkeysref) and with ssh-keygen -l on every 16th (thorough: 64th) file; ParseAuthorizedKey is called until it fails, every return is located by its rest. known_hosts case likewise (markers, host lists, comments of 0..n words). fuzz case = random bytes and edited blobs/lines into all three parsers. concurrency case = one parsed PublicKey of every type (plain, sk-, certificate; two per case) used by 4..8 goroutines at once for Verify (valid and invalid)/Marshal/Type/FingerprintSHA256/FingerprintLegacyMD5/MarshalAuthorizedKey, and ParsePublicKey/ParseAuthorizedKey/ParseKnownHosts called at once on one shared read-only input and on one distinct input per goroutine; expectations precomputed single-threaded from the references, barrier start, judged after join, every 4th case on a single P with yields; also built with -race (that variant runs only these streams). distinct key = (stream, class, key family, outcome)")
+	m.Rule("pool per process = Go-made public keys (ed25519, ecdsa 256/384/521 from seeded scalars, RSA moduli of 1024..16384 bits with e in {3,5,17,257,65537,2^24-1}, DSA-shaped numbers), hand-built sk-ecdsa/sk-ed25519 blobs, ssh-keygen-made keys (ed25519, ecdsa 256/384/521, rsa 1024/2048/3072[/4096], dsa) and certificates over them issued by ssh.Certificate.SignCert and by ssh-keygen -s (user/host, options, 3 CA types). key case = one pool key through ParsePublicKey/Marshal/MarshalAuthorizedKey/ParseAuthorizedKey/Fingerprint*, compared with an independent encoder/decoder (h/ref/sshkeyfmt), ssh-keygen -l (-E sha256|md5) reading the package's output, and ssh-keygen -e -m PKCS8 (numbers via OpenSSL's DER). file case = authorized_keys file of 1..10 generated lines (plain / options with quotes, escaped quotes, commas, blanks, '=' / type mismatch / blank, comment, one token / unterminated quote / bad or truncated base64 / unknown type / quoted-option escapes: runs of 0..4 backslashes before a quote inside or at the end of a value, backslash before comma/blank/other, escaped quote at value start/end, quotes in unquoted text, empty values, unterminated quotations with and without trailing backslashes, tab vs blanks after the options - expectation = sshd model (line splitting loop + opt_dequote escape rule: only backslash,quote is an escape) / single-edit mutants and oddities), outcome known by construction and cross-checked with the sshd(8) reference grammar (h/ref/authkeysref) and with ssh-keygen -l on every 16th (thorough: 64th) file; ParseAuthorizedKey is called until it fails, every return is located by its rest. known_hosts case likewise (markers, host lists, comments of 0..n words). fuzz case = random bytes and edited blobs/lines into all three parsers. concurrency case = one parsed PublicKey of every type (plain, sk-, certificate; two per case) used by 4..8 goroutines at once for Verify (valid and invalid)/Marshal/Type/FingerprintSHA256/FingerprintLegacyMD5/MarshalAuthorizedKey, and ParsePublicKey/ParseAuthorizedKey/ParseKnownHosts called at once on one shared read-only input and on one distinct input per goroutine; expectations precomputed single-threaded from the references, barrier start, judged after join, every 4th case on a single P with yields; also built with -race (that variant runs only these streams). distinct key = (stream, class, key family, outcome)")
 	m.Assume("ssh-keygen 9.2 is the format witness; h/ref/sshkeyfmt (own RFC 4253/5656 codec, unit-tested elsewhere) and h/ref/authkeysref (sshd(8) text, unit-tested on the manual's examples) are the references; ssh-keygen-made key material is not determined by the seed (witnesses carry the lines)")
 	m.Assume("readings accepted: ssh-keygen prints a certificate's fingerprint as that of the certified key, the package hashes Marshal() (both accepted for certificates; the certified key's fingerprint is judged); lines outside the sshd(8) grammar (empty option specs, short type names, CR inside a line, known_hosts comments of several words, unknown markers) may be accepted or skipped but must never yield a key the line does not announce")
 
@@ -169,6 +169,9 @@ func TestC38(t *testing.T) {
 	m.Gate("auth_strict_valid_lines", m.N(6000, 300000), "well-formed lines whose key, options and comment were compared")
 	m.Gate("auth_options_lines", m.N(3000, 150000), "lines with an options field")
 	m.Gate("auth_options_escaped_quote", m.N(400, 20000), "options containing \\\" inside a quotation")
+	m.Gate("auth_escape_lines_accepted", m.N(1500, 90000), "quoted-option escape lines (backslash runs before quotes/commas/blanks, escaped quotes at value start/end, quotes in unquoted text, empty values) that the sshd model accepts: key, Options and comment compared")
+	m.Gate("auth_escape_lines_rejected", m.N(500, 30000), "quoted-option escape lines that the sshd model rejects (value ending in a backslash, unterminated quotations, unquoted blanks) observed as yielding no key")
+	m.Gate("auth_escape_lines_vs_keygen", m.N(100, 1500), "escape-class lines whose accept/reject and key were confirmed by ssh-keygen -l")
 	m.Gate("auth_mismatch_lines_rejected", m.N(1000, 50000), "declared type != blob type observed as not returned")
 	m.Gate("auth_crlf_lines", m.N(1000, 50000), "CRLF terminated lines")
 	m.Gate("auth_multiword_comments", m.N(1000, 50000), "comments with inner blanks compared")
@@ -445,7 +448,7 @@ func authFileCase(m *mon.M, p *pool, i int64, r *rand.Rand) {
 		}
 		for q := next; q < last; q++ {
 			if ls[q].Strict == 1 {
-				m.Violation("valid-line-skipped:"+ls[q].Class, wit(map[string]any{"line": ls[q].Text, "err": fmt.Sprint(err)}))
+				m.Violation(lineKey("valid-line-skipped:"+ls[q].Class, ls[q]), wit(map[string]any{"line": ls[q].Text, "err": fmt.Sprint(err)}))
 			} else if ls[q].Strict == -1 {
 				countRejected(m, "auth", ls[q])
 			} else {
@@ -466,7 +469,7 @@ func authFileCase(m *mon.M, p *pool, i int64, r *rand.Rand) {
 		declared, exact := soundFor(l.Text, out)
 		switch l.Strict {
 		case -1:
-			m.Violation("invalid-line-yields-key:"+l.Class, wit(map[string]any{"line": l.Text, "got_type": out.Type()}))
+			m.Violation(lineKey("invalid-line-yields-key:"+l.Class, l), wit(map[string]any{"line": l.Text, "got_type": out.Type()}))
 		case 0:
 			m.Count("auth_lenient_yields_key:"+l.Class, 1)
 			if !declared {
@@ -476,11 +479,14 @@ func authFileCase(m *mon.M, p *pool, i int64, r *rand.Rand) {
 			}
 		case 1:
 			m.Count("auth_strict_valid_lines", 1)
+			if strings.HasPrefix(l.Class, "escapes:") {
+				m.Count("auth_escape_lines_accepted", 1)
+			}
 			if l.EOL == "\r\n" {
 				m.Count("auth_crlf_lines", 1)
 			}
 			if !bytes.Equal(out.Marshal(), l.Key.Blob) || out.Type() != l.Key.Type {
-				m.Violation("wrong-key:"+l.Class, wit(map[string]any{"line": l.Text, "got_type": out.Type()}))
+				m.Violation(lineKey("wrong-key:"+l.Class, l), wit(map[string]any{"line": l.Text, "got_type": out.Type()}))
 			}
 			if strings.ContainsAny(l.Comment, " \t") {
 				m.Count("auth_multiword_comments", 1)
@@ -493,7 +499,7 @@ func authFileCase(m *mon.M, p *pool, i int64, r *rand.Rand) {
 				if l.EOL == "\r\n" {
 					cls += ":crlf"
 				}
-				m.Violation("comment-differs:"+cls, wit(map[string]any{"line": l.Text, "got": comment, "want": l.Comment}))
+				m.Violation(lineKey("comment-differs:"+cls, l), wit(map[string]any{"line": l.Text, "got": comment, "want": l.Comment}))
 			}
 			if l.Options != nil {
 				m.Count("auth_options_lines", 1)
@@ -502,7 +508,7 @@ func authFileCase(m *mon.M, p *pool, i int64, r *rand.Rand) {
 				}
 			}
 			if !(len(options) == 0 && len(l.Options) == 0) && !reflect.DeepEqual(options, l.Options) {
-				m.Violation("options-differ:"+l.Class, wit(map[string]any{"line": l.Text, "got": options, "want": l.Options}))
+				m.Violation(lineKey("options-differ:"+l.Class, l), wit(map[string]any{"line": l.Text, "got": options, "want": l.Options}))
 			}
 		}
 		next = last + 1
@@ -538,14 +544,30 @@ func authFileCase(m *mon.M, p *pool, i int64, r *rand.Rand) {
 			return
 		}
 		m.Count("auth_files_vs_keygen", 1)
+		for _, l := range ls {
+			if strings.HasPrefix(l.Class, "escapes:") {
+				m.Count("auth_escape_lines_vs_keygen", 1)
+			}
+		}
 		if !reflect.DeepEqual(got, want) && m.Violations() == 0 {
 			m.Violation("key-sequence-differs-from-ssh-keygen", wit(map[string]any{"got": got, "ssh-keygen": kgfp}))
 		}
 	}
 }
 
+// lineKey: deviations on lines of the quoted-option escapes class (accept/reject,
+// key, Options, comment: all taken from the sshd model) share one key per subclass.
+func lineKey(def string, l lineSpec) string {
+	if strings.HasPrefix(l.Class, "escapes:") {
+		return "authorized-key-options-differ:" + l.Class
+	}
+	return def
+}
+
 func countRejected(m *mon.M, stream string, l lineSpec) {
 	switch {
+	case strings.HasPrefix(l.Class, "escapes:"):
+		m.Count("auth_escape_lines_rejected", 1)
 	case strings.HasPrefix(l.Class, "mismatch") && stream == "auth":
 		m.Count("auth_mismatch_lines_rejected", 1)
 	case strings.HasPrefix(l.Class, "mismatch"):
